@@ -12,6 +12,7 @@ Values travel as JSON-able trees  ["i",n] ["r",token] ["c",ch] ["y",name] ["s",t
 import itertools
 import json
 import os
+import zlib
 
 import numpy as np
 
@@ -27,7 +28,8 @@ CLAIM = dict(
          "comparing written text, read value and end position on a closed universe plus seeded random values.",
     note="trusted: Lean kernel (axioms propext/Classical.choice/Quot.sound), correspondence harness, CPython "
          "(float(repr(x)) == x, str(int), int(str)), numpy's asarray (list -> array conversion, modelled only as the "
-         "domain predicate noCoerce); character classes are the ASCII part of str.isnumeric/isalpha/isspace",
+         "domain predicate noCoerce); character classes are the ASCII part of str.isnumeric/isdigit/isspace, and for "
+         "isalpha ASCII plus Latin-1/Latin Extended-A/Greek/Cyrillic/CJK letters (checked against str on every run)",
     technique="Lean 4 structural induction over a nested value type (writer/reader round trip), hand-written model, "
               "differential correspondence on text, value and position",
     design="7/C11")
@@ -54,13 +56,17 @@ REALS = [0.0, -0.0, 0.5, 1.5, -2.5, 1.0, -1.0, 0.1, 1 / 3, 123456789.125, 1e100,
          -1e-300, 1e21, 9007199254740993.0, 3.141592653589793]
 NONFINITE = [float("inf"), float("-inf"), float("nan")]
 CHARS = ['a', 'A', 'z', '0', '9', 'c', ' ', '"', '\n', '\t', '[', ']', ':', '{', '}', ';', '-', '.', 'e', '(', ')',
-         '\\', "'", 'é', '中']
-SYMS = ['a', 'foo', 'x', 'y', 'z', 'A1', 'a.b', '.a', 'abc123', 'e', 'c', 'inf', 'nan', 'Foo.bar.baz9']
+         '\\', "'", 'é', '中', 'ß', 'λ', '²', 'Я', '名']
+SYMS = ['a', 'foo', 'x', 'y', 'z', 'A1', 'a.b', '.a', 'abc123', 'e', 'c', 'inf', 'nan', 'Foo.bar.baz9',
+        # names with letters / digits outside ASCII (str.isalpha / isdigit accept them; built without the lexer)
+        'größe', 'λ', 'naïve', 'имя', '名前', 'x²', 'Ünï.cödé9', 'aλ', 'λa', '.λ', 'é', 'x٣']
+SYM_ALPHA = list("abxyzAZ09.") + list("éßλяЯ名前²٣ü")
 ALPHA = ['"', ' ', '\n', '[', ']', ':', '0', 'c', 'a', 'b']
 ALPHA_WIDE = ALPHA + ['{', '}', ';', '-', '.', 'e', '1', '(', ')', '\t', '+', 'é']
 STRINGS = ["", "a", "abc", "hello foo", 'say "hi"', '"', '""', '"""', 'a\nb', "\n", " ", "  ", "[", "]", "[]", "][",
            ":", ':"', ':"x"', '0c', '0c"', '0c[', ":{", "}", ":[", "-1", "1e+22", ";", "a;b", ":a", "[1 2]",
-           ':{[1 2]}', '" "', ' "', '" ', "\t", "x\ty", "é中", ':"comment"', 'a:"b"c']
+           ':{[1 2]}', '" "', ' "', '" ', "\t", "x\ty", "é中", ':"comment"', 'a:"b"c',
+           'größe', ':λ', 'имя 名前', 'x²', '0cλ', '[λ]']
 
 
 def I(n): return ["i", int(n)]
@@ -84,14 +90,20 @@ def atoms_list():
 
 
 CORE = [I(-1), I(0), I(12), R(1.5), R(-1e-7), R(1e22), C('"'), C(' '), C('\n'), C('['), C('0'),
-        S(""), S("["), S('a"b'), S("a\nb"), S(":"), S("0c"), Y("a"), Y("foo")]
+        S(""), S("["), S('a"b'), S("a\nb"), S(":"), S("0c"), Y("a"), Y("foo"), Y("λ"), Y("x²"), S("名前")]
 SMALL = [I(-1), R(1.5), C('"'), S("["), Y("a"), S("")]
 KEYS = [I(0), I(-1), I(7), R(1.5), R(-2.5), R(1e22), C('a'), C('"'), C(' '), C('['), S(""), S("ab"), S('q"'),
-        S("["), S("a b"), Y("a"), Y("foo")]
+        S("["), S("a b"), Y("a"), Y("foo"), Y("größe"), Y("λ"), S("λ"), C("λ")]
 
 
 def rand_string(rng, alpha=ALPHA_WIDE, maxlen=8):
     return "".join(rng.choice(alpha) for _ in range(rng.randrange(0, maxlen + 1)))
+
+
+def rand_sym(rng):
+    """a readable symbol name: a letter (any script) or '.', then letters / digits / '.'"""
+    first = rng.choice([c for c in SYM_ALPHA if c.isalpha() or c == '.'])
+    return first + "".join(rng.choice(SYM_ALPHA) for _ in range(rng.randrange(0, 6)))
 
 
 def rand_atom(rng):
@@ -106,7 +118,7 @@ def rand_atom(rng):
     if r < 0.55:
         return C(rng.choice(CHARS + ALPHA_WIDE))
     if r < 0.65:
-        return Y(rng.choice(SYMS))
+        return Y(rng.choice(SYMS) if rng.random() < 0.6 else rand_sym(rng))
     return S(rng.choice(STRINGS) if rng.random() < 0.3 else rand_string(rng))
 
 
@@ -339,7 +351,114 @@ def same_kinds(c0, v1):
         return False
 
 
-def run_case(ctx, real, drv, spec, do_file=False, label="universe", case=None):
+def containers(v, out=None):
+    """every mutable object reachable from a value: arrays, lists, dictionaries"""
+    if out is None:
+        out = []
+    if isinstance(v, dict):
+        out.append(v)
+        for k, x in v.items():
+            containers(x, out)
+    elif isinstance(v, (list, np.ndarray)) and not (isinstance(v, np.ndarray) and v.ndim == 0):
+        out.append(v)
+        if isinstance(v, list) or v.dtype == object:
+            for x in (v if isinstance(v, list) else v.flat):
+                containers(x, out)
+    return out
+
+
+def aliased(a, b):
+    """do two values share a mutable object (or array memory)?"""
+    ca, cb = containers(a), containers(b)
+    ids = {id(x) for x in ca}
+    if any(id(y) in ids for y in cb):
+        return True
+    aa = [x for x in ca if isinstance(x, np.ndarray) and x.size]
+    bb = [y for y in cb if isinstance(y, np.ndarray) and y.size]
+    if len(aa) * len(bb) <= 400:
+        return any(np.shares_memory(x, y) for x in aa for y in bb)
+    return False
+
+
+def mutate(klong, v, top=True):
+    """change a value that was read IN PLACE, everywhere it can be changed: a dictionary gets a new entry
+    (the top-level one through Klong's own Join, `d,[k v]`) and its first atom value replaced, an array gets
+    its first atom element replaced.  Returns the number of changes made."""
+    n = 0
+    if isinstance(v, dict):
+        for x in list(v.values()):
+            n += mutate(klong, x, False)
+        for k, x in list(v.items()):
+            if not containers(x):
+                v[k] = "zz"
+                n += 1
+                break
+        if top:
+            klong["cmut"] = v
+            klong('cmut,["zk" 99]')
+        else:
+            v["zk"] = 99
+        n += 1
+    elif isinstance(v, np.ndarray) and v.ndim > 0 and v.size:
+        if v.dtype == object:
+            for x in v.flat:
+                n += mutate(klong, x, False)
+            if not containers(v.flat[0]):
+                v.flat[0] = "zz"
+                n += 1
+        else:
+            v.flat[0] = 8 if v.flat[0] == 7 else 7
+            n += 1
+    elif isinstance(v, list) and v:
+        for x in v:
+            n += mutate(klong, x, False)
+        if not containers(v[0]):
+            v[0] = "zz"
+            n += 1
+    return n
+
+
+def alias_pass(ctx, real, spec, c0, v, text, cls):
+    """history: read the text, change the value read in place, read the same text again.  The second value
+    must be the original one again, share nothing with the first and nothing with the value written; and the
+    changed value itself must round-trip as what it now is."""
+    case = dict(kind="alias", value=spec,
+                note="write v; r1 = .rs(text); change r1 in place (Join on a dictionary, element assignment on arrays); "
+                     "r2 = .rs(text) must be the original value and share no object with r1 or v")
+    try:
+        r1 = real.rs(text)
+        if aliased(r1, v):
+            ctx.oracle_fail(f"alias:{cls}", case, "a fresh value", f"text {text!r}: the value read shares an object with the value written",
+                            "a value read back is the very object that was written")
+            return
+        n = mutate(real.klong, r1)
+        if n == 0:
+            return
+        m1 = canon(r1)
+        r2 = real.rs(text)
+        ctx.bump("path:read-mutate-read")
+        if aliased(r1, r2):
+            ctx.oracle_fail(f"alias:{cls}", case, "two independent values",
+                            f"text {text!r}: two reads share an object (first one now {show(r1)})",
+                            "two read-backs of one text share a mutable object")
+        elif canon(r2) != c0 or real.write(r2) != text:
+            ctx.oracle_fail(f"alias:{cls}", case, f"{json.dumps(c0)} again",
+                            f"text {text!r} read as {show(r2)} after the value of an earlier read was changed in place",
+                            "reading a text depends on what was done to the value of an earlier read")
+        else:
+            # the changed value is a value like any other: it writes as what it is now and reads back
+            t3 = real.write(r1)
+            r3 = real.rs(t3)
+            if canon(r3) != m1 or real.write(r3) != t3:
+                ctx.oracle_fail(f"alias:{cls}", dict(case, changed=m1), f"{json.dumps(m1)}",
+                                f"changed value written {t3!r}, read back as {show(r3)}",
+                                "a value changed in place does not round-trip as what it is now")
+    except Exception as e:
+        ctx.oracle_fail(f"alias:{cls}", case, f"reads back {json.dumps(c0)}", f"text {text!r}: {type(e).__name__}: {e}",
+                        "read / change in place / read again raises")
+
+
+def run_case(ctx, real, drv, spec, do_file=False, label="universe", case=None, alias=None):
     be = real.be
     if case is None:
         case = dict(kind="value", value=spec)
@@ -352,7 +471,13 @@ def run_case(ctx, real, drv, spec, do_file=False, label="universe", case=None):
         return
     has_dict = contains(c0, lambda s: s[0] == "D")
     nonfinite = cls == "nonfinite"
-    text = real.write(v)
+    try:
+        text = real.write(v)
+        if not isinstance(text, str):
+            raise TypeError(f"kg_write returned {type(text).__name__}")
+    except Exception as e:
+        ctx.oracle_fail(f"w:{cls}", case, f"the text of {json.dumps(c0)}", f"{type(e).__name__}: {e}", "kg_write raises")
+        return False
     ctx.count(("rs", json.dumps(c0)), nontrivial=c0[0] in "LD" or (c0[0] == "s" and len(c0[1]) > 0) or c0[0] in "ir")
     ctx.bump("kind:" + cls)
     # ---- property oracle on the real code: .rs
@@ -402,6 +527,11 @@ def run_case(ctx, real, drv, spec, do_file=False, label="universe", case=None):
             model = f"v={rep.get('v')} end={rep.get('end')}"
             if model != impl:
                 ctx.mismatch("Klong.C11.kgReadF vs kg_read/.rs", case, model, impl)
+    # ---- read, change the value read in place, read again (containers)
+    if alias is None:
+        alias = label != "universe" or zlib.crc32(text.encode("utf-8", "replace")) % 3 == 0
+    if ok and alias and not nonfinite and c0[0] in "LD":
+        alias_pass(ctx, real, spec, c0, v, text, cls)
     # ---- .w / .r through channels
     if do_file and not nonfinite:
         try:
@@ -432,7 +562,10 @@ def run_case(ctx, real, drv, spec, do_file=False, label="universe", case=None):
             ctx.oracle_fail(f"form:{cls}", dict(kind="form", value=spec), f"x:$$x matches {json.dumps(c0)}", obs)
         elif drv is not None:
             rep = fields(drv.ask("ff " + wire(c0)))
-            impl = f"t={_cps(f)} v={wire(canon(r))}"
+            try:
+                impl = f"t={_cps(f)} v={wire(canon(r))}"
+            except Exception as e:
+                impl = f"<{type(e).__name__}: {e}>"
             model = f"t={rep.get('t')} v={rep.get('v')}"
             if model != impl:
                 ctx.mismatch("Klong.C11.fmt/form vs $ and :$", dict(kind="form", value=spec), model, impl)
@@ -608,7 +741,9 @@ def _common(ctx):
                 "symbols, strings over {quote, blank, newline, [, ], :, 0, c, letters} up to length 3 (4 in the thorough tier)), every atom and "
                 "sampled/all pairs in a list, nestings to depth 3 over a small pool (depth <=2 exhaustive in the "
                 "thorough tier), dictionaries over every key kind, plus seeded random strings and nestings; each "
-                "value: kg_write -> .rs (and .w/.r for a subset) on the real interpreter and the Lean writer/reader. "
+                "value: kg_write -> .rs (and .w/.r for a subset) on the real interpreter and the Lean writer/reader; for lists and "
+                "dictionaries (history, corpus, a third of the universe) also read -> change the value read in place -> read the "
+                "same text again: the original value again, no object shared between read-backs or with the value written. "
                 "distinct = distinct values as Klong holds them; non-trivial = not an empty string / character / symbol atom")
     ctx.assumptions += [
         "float(repr(x)) == x for finite floats and str(int)/int(str) are CPython's; reals are carried as tokens",
@@ -619,12 +754,34 @@ def _common(ctx):
     ]
 
 
+def char_classes(ctx, drv):
+    """the model's character classes against str's: equal on ASCII; every letter the model knows outside
+    ASCII is a letter for str.isalpha (so a well-formed symbol name is lexed the same way)"""
+    cps = list(range(0, 0xA000))
+    reps = drv.ask_many([f"cls {n}" for n in cps])
+    for n, r in zip(cps, reps):
+        f = fields(r)
+        ch = chr(n)
+        py = dict(alpha=ch.isalpha(), digit=ch.isnumeric() and ch.isdigit(), space=ch.isspace(),
+                  symbolic=ch.isalpha() or ch.isdigit() or ch == '.')
+        if n < 128:
+            bad = [k for k in py if f.get(k) != ("1" if py[k] else "0")]
+        else:
+            bad = [k for k in ("alpha", "digit", "space") if f.get(k) == "1" and not py[k]]
+        if bad:
+            ctx.mismatch("Klong.C11 character classes vs str methods", dict(kind="char", codepoint=n), r, str(py))
+            return
+    ctx.bump("char-classes-checked", len(cps))
+
+
 def run(ctx):
     _common(ctx)
     real = Real(ctx)
     drv = Driver("c11") if getattr(ctx, "driver_ok", True) else None
     seen = set()
     try:
+        if drv is not None:
+            char_classes(ctx, drv)
         if run_history(ctx, real, drv, history(ctx)):
             # what is written depends on what was written before: single values of the universe could not
             # be replayed on their own, the history is the failing input
@@ -641,7 +798,10 @@ def run(ctx):
             seen.add(key)
             run_case(ctx, real, drv, spec, do_file=do_file)
             if len(ctx.samples) < 6 and spec[0] in "LD" and len(key) > 30 and len(seen) % 97 == 0:
-                ctx.sample(dict(value=spec, text=real.write(build(spec, real.be))))
+                try:
+                    ctx.sample(dict(value=spec, text=real.write(build(spec, real.be))))
+                except Exception:
+                    pass
     finally:
         if drv:
             drv.close()
@@ -655,6 +815,8 @@ def replay(ctx, case):
     try:
         if c.get("kind") == "history":
             run_history(ctx, real, drv, c["values"])
+        elif c.get("kind") == "alias":
+            run_case(ctx, real, drv, c["value"], do_file=True, label="replay", alias=True)
         else:
             run_case(ctx, real, drv, c["value"], do_file=True, label="replay")
     finally:
